@@ -97,6 +97,20 @@ func corpus(out *gal.Out) {
 	// selection through the environment, upper-case variable and lower-case value
 	run(gcx.Input{Dims: d12, Env: map[string]string{"D1": "d1c"},
 		Doc: m("k", m("D1c", s("c"), "default", s("d")), "n", gcx.Null())})
+	// maps with non-string keys (yaml: map[any]any): never a switch whatever their string keys look
+	// like, keys kept, values resolved, no dotted path through them
+	x := func(kv ...any) gcx.Tree {
+		var es []gcx.Entry
+		for i := 0; i < len(kv); i += 2 {
+			es = append(es, gcx.Entry{K: kv[i].(string), V: kv[i+1].(gcx.Tree)})
+		}
+		return gcx.XMap(es...)
+	}
+	run(gcx.Input{Dims: d12, Doc: m("k", x("i:1", m("D1a", s("x"), "default", s("y"))))})
+	run(gcx.Input{Dims: d12, Doc: m("ports", x("i:80", s("http"), "i:443", gcx.List(m("D2b", s("no"), "default", s("yes")))),
+		"flags", x("b:true", m("D1a", m("D2a", s("hit"))), "b:false", gcx.Null(), "s:D1a", s("kept"), "s:default", s("kept too")),
+		"r", x("f:1.5", x("n:", m("D1b", s("no"), "D1a", s("deep")))))})
+	run(gcx.Input{Dims: d12, Doc: m("k", x("i:0", m("D1b", s("stuck"))))}) // a stuck switch below such a map: loading fails
 	// three dimensions, D3 registered first
 	d312 := []gcx.DimReg{{Enum: 3, Name: "d3", Default: 1}, {Enum: 1, Name: "d1", Default: 3}, {Enum: 2, Name: "d2", Default: 4}}
 	run(gcx.Input{Dims: d312,
